@@ -329,11 +329,17 @@ func overlayFromPatch(repo, patch string) (dir string, skipped string, err error
 		return "", "", err
 	}
 	pb, _ := os.ReadFile(patch)
-	for _, line := range strings.Split(string(pb), "\n") {
+	lines := strings.Split(string(pb), "\n")
+	for li, line := range lines {
 		if !strings.HasPrefix(line, "+++ b/") {
 			continue
 		}
 		f := strings.TrimPrefix(line, "+++ b/")
+		if li > 0 && strings.HasPrefix(lines[li-1], "--- /dev/null") {
+			// a file the patch creates
+			_ = os.MkdirAll(filepath.Dir(filepath.Join(tmp, f)), 0o755)
+			continue
+		}
 		src, err := os.ReadFile(filepath.Join(repo, f))
 		if err != nil {
 			return tmp, f + " no longer exists", nil
